@@ -25,6 +25,7 @@ type limitedResponseWriter struct {
 	limit        int64
 	limitReached bool
 	wroteHeader  bool
+	hijacked     bool
 	statusCode   int
 	ctx          context.Context
 }
@@ -92,20 +93,40 @@ func (lrw *limitedResponseWriter) WriteHeader(statusCode int) {
 	if lrw.wroteHeader {
 		return
 	}
+	if statusCode >= 100 && statusCode < 200 && statusCode != http.StatusSwitchingProtocols {
+		// Informational responses are forwarded at once; the final status follows
+		lrw.ResponseWriter.WriteHeader(statusCode)
+		return
+	}
 	// Just record the status code, don't write it yet
 	lrw.statusCode = statusCode
+}
+
+// finish forwards the recorded status of a response that had no body
+// (204, 304, redirects, HEAD, empty errors): without it the status would be
+// lost and the client would see an implicit 200.
+func (lrw *limitedResponseWriter) finish() {
+	if !lrw.hijacked {
+		lrw.ensureHeaderWritten()
+	}
 }
 
 // Support http.Hijacker if underlying supports it (for websockets)
 func (lrw *limitedResponseWriter) Hijack() (net.Conn, *bufio.ReadWriter, error) {
 	if h, ok := lrw.ResponseWriter.(http.Hijacker); ok {
-		return h.Hijack()
+		conn, brw, err := h.Hijack()
+		if err == nil {
+			lrw.hijacked = true
+		}
+		return conn, brw, err
 	}
 	return nil, nil, http.ErrNotSupported
 }
 
 // Support http.Flusher if underlying supports it
 func (lrw *limitedResponseWriter) Flush() {
+	// Flushing commits the header, so the recorded status must go out first
+	lrw.finish()
 	if f, ok := lrw.ResponseWriter.(http.Flusher); ok {
 		f.Flush()
 	}
@@ -182,6 +203,7 @@ func newSizeLimitMiddleware(name string, cfg map[string]interface{}) (Middleware
 
 			// Call next handler with the limited response writer
 			next.ServeHTTP(lrw, r)
+			lrw.finish()
 		})
 	}, nil
 }
